@@ -3,6 +3,8 @@
 //   T <maxq> <op>;<op>;...      TCP scenario          U <op>;...     UDP scenario
 //   X <tcp|udp> <threads> <iters> <seed>            concurrent storm; prints the recorded log for the acceptor
 // ops (sids are the real identifiers; the generator mirrors the monotone allocation):
+//   c:tlsok | c:tlsbad | c:tlshang            TLS connect answered by the harness with a handshake / garbage / silence
+//   a:tls | a:tlsbad                          a raw OpenSSL client / a plaintext peer connects to the engine's TLS listener
 //   c:ok | c:refused | c:sync | c:eacces | c:resolve | c:hole     connect (to the harness listener / a closed port /
 //                                             a port where connect() fails synchronously (ECONNREFUSED, EACCES) / an
 //                                             unresolvable name / a listener whose backlog is full)
@@ -49,6 +51,10 @@
 #include "iora/network/transport_impl.hpp"
 #undef private
 #undef protected
+#include "pki.hpp"
+#include <openssl/ssl.h>
+
+static verif::MiniPki g_pki;
 
 using namespace iora::network;
 
@@ -193,6 +199,12 @@ struct Rig
   std::map<SessionId, int> peer;   // sid -> peer socket
   std::map<SessionId, std::uint16_t> peerDest; // UDP: where the peer sends (session's local port or the listener)
   std::vector<int> allFds;
+  int tlsL = -1;               // harness listener whose connections are answered with a TLS handshake / garbage / silence
+  std::uint16_t tlsPort = 0;
+  ListenerId tlsLid = 0;       // the engine's TLS listener
+  std::uint16_t tlsLport = 0;
+  std::map<SessionId, SSL *> peerSsl;
+  SSL_CTX *srvCtx = nullptr, *cliCtx = nullptr;
 
   explicit Rig(bool isUdp, std::size_t maxq) : udp(isUdp)
   {
@@ -204,6 +216,17 @@ struct Rig
     cfg.gcInterval = std::chrono::seconds(3600);
     cfg.connectTimeout = std::chrono::milliseconds(3600 * 1000);
     cfg.writeStallTimeout = std::chrono::milliseconds(3600 * 1000);
+    if (!udp)
+    {
+      cfg.clientTls.enabled = true;
+      cfg.clientTls.defaultMode = TlsMode::Client;
+      cfg.clientTls.verifyPeer = false;
+      cfg.serverTls.enabled = true;
+      cfg.serverTls.defaultMode = TlsMode::Server;
+      cfg.serverTls.certFile = g_pki.c("server");
+      cfg.serverTls.keyFile = g_pki.k("server");
+      cfg.handshakeTimeout = std::chrono::milliseconds(3600 * 1000);
+    }
     tr = udp ? Transport::udp(cfg) : Transport::tcp(cfg);
     if (udp) ude = static_cast<UdpEngine *>(tr->_impl->engine.get());
     else tcp = static_cast<TcpEngine *>(tr->_impl->engine.get());
@@ -333,6 +356,16 @@ struct Rig
       if (!lr.isOk()) return false;
       lid = lr.value();
       lport = tr->getListenerAddress(lid).port;
+      auto lt = tr->addListener("127.0.0.1", 0, TlsMode::Server);
+      if (!lt.isOk()) return false;
+      tlsLid = lt.value();
+      tlsLport = tr->getListenerAddress(tlsLid).port;
+      tlsL = tcpListener(tlsPort, 64);
+      allFds.push_back(tlsL);
+      srvCtx = SSL_CTX_new(TLS_server_method());
+      SSL_CTX_use_certificate_file(srvCtx, g_pki.c("server").c_str(), SSL_FILETYPE_PEM);
+      SSL_CTX_use_PrivateKey_file(srvCtx, g_pki.k("server").c_str(), SSL_FILETYPE_PEM);
+      cliCtx = SSL_CTX_new(TLS_client_method());
     }
     else
     {
@@ -391,12 +424,43 @@ struct Rig
     else if (kind == "eacces") port = static_cast<std::uint16_t>(inj::eaccesPort.load());
     else if (kind == "resolve") { host = "no-such-host.invalid"; port = 9; }
     else if (kind == "hole") port = holePort;
-    auto r = tr->connect(host, port, TlsMode::None);
+    const bool tls = kind == "tlsok" || kind == "tlsbad" || kind == "tlshang";
+    if (tls) port = tlsPort;
+    auto r = tr->connect(host, port, tls ? TlsMode::Client : TlsMode::None);
     if (!r.isOk()) { results.push_back("err"); return; }
     SessionId sid = r.value();
     results.push_back("ok" + std::to_string(sid));
     if (!wait) { drainConnects.insert(sid); if (upeer >= 0) peer[sid] = upeer; return; }
     if (kind == "hole") return;
+    if (tls)
+    {
+      // the harness answers the engine's TCP connection itself: a TLS handshake, garbage, or nothing
+      int f = acceptOne(tlsL, 3000);
+      if (f < 0) return;
+      allFds.push_back(f);
+      int fl = ::fcntl(f, F_GETFL, 0);
+      ::fcntl(f, F_SETFL, fl & ~O_NONBLOCK);
+      timeval tv{3, 0};
+      ::setsockopt(f, SOL_SOCKET, SO_RCVTIMEO, &tv, sizeof(tv));
+      ::setsockopt(f, SOL_SOCKET, SO_SNDTIMEO, &tv, sizeof(tv));
+      if (kind == "tlsok")
+      {
+        SSL *ssl = SSL_new(srvCtx);
+        SSL_set_fd(ssl, f);
+        if (SSL_accept(ssl) == 1) peerSsl[sid] = ssl; else SSL_free(ssl);
+        peer[sid] = f;
+        waitLog(sid, "GC", "GX", 3000);
+      }
+      else if (kind == "tlsbad")
+      {
+        const char junk[] = "this is not a TLS server hello, just bytes that cannot be parsed as a record\r\n\r\n";
+        (void)!::write(f, junk, sizeof(junk));
+        peer[sid] = f;
+        waitLog(sid, "GX", "GX", 3000);
+      }
+      else peer[sid] = f;   // tlshang: the handshake never progresses
+      return;
+    }
     waitLog(sid, "GC", "GX", 3000);
     if (kind == "ok")
     {
@@ -429,6 +493,41 @@ struct Rig
       peer[r.value()] = f;
       peerDest[r.value()] = lport;
       if (wait) waitLog(r.value(), "GC", "GX", 3000); else drainConnects.insert(r.value());
+    }
+    else if (k == "a" && p.size() > 1 && !udp)
+    {
+      // a:tls  a raw OpenSSL client completes a handshake with the engine's TLS listener (onAccept, then onConnect)
+      // a:tlsbad  a peer that sends bytes that are no ClientHello (onAccept, then the close)
+      std::size_t from;
+      { std::lock_guard<std::mutex> g(m); from = log.size(); }
+      int f = ::socket(AF_INET, SOCK_STREAM, 0);
+      sockaddr_in a = loop(tlsLport);
+      if (::connect(f, reinterpret_cast<sockaddr *>(&a), sizeof(a)) != 0) { ::close(f); return; }
+      allFds.push_back(f);
+      if (stopped) return;
+      timeval tv{3, 0};
+      ::setsockopt(f, SOL_SOCKET, SO_RCVTIMEO, &tv, sizeof(tv));
+      ::setsockopt(f, SOL_SOCKET, SO_SNDTIMEO, &tv, sizeof(tv));
+      SessionId sid = 0;
+      for (int i = 0; i < 12000 && sid == 0; ++i)
+      {
+        sid = lastAccepted(from);
+        if (sid == 0) std::this_thread::sleep_for(std::chrono::microseconds(250));
+      }
+      if (p[1] == "tls")
+      {
+        SSL *ssl = SSL_new(cliCtx);
+        SSL_set_fd(ssl, f);
+        bool ok = SSL_connect(ssl) == 1;
+        if (sid != 0) { peer[sid] = f; if (ok) peerSsl[sid] = ssl; else SSL_free(ssl); waitLog(sid, "GC", "GX", 3000); }
+        else SSL_free(ssl);
+      }
+      else
+      {
+        const char junk[] = "GET / HTTP/1.1\r\nHost: plain\r\n\r\n";
+        (void)!::write(f, junk, sizeof(junk) - 1);
+        if (sid != 0) { peer[sid] = f; waitLog(sid, "GX", "GX", 3000); }
+      }
     }
     else if (k == "a")
     {
@@ -640,6 +739,10 @@ struct Rig
   {
     if (!stopped) { tr->stop(); stopped = true; }
     tr.reset();
+    for (auto &kv : peerSsl) SSL_free(kv.second);
+    peerSsl.clear();
+    if (srvCtx) SSL_CTX_free(srvCtx);
+    if (cliCtx) SSL_CTX_free(cliCtx);
     for (void *b : boxes) delete static_cast<Box *>(b);
     boxes.clear();
     for (auto &kv : peer) if (kv.second >= 0) ::close(kv.second);
@@ -840,6 +943,7 @@ int main(int argc, char **argv)
   if (argc < 3) return 2;
   iora::core::Logger::setLevel(iora::core::Logger::Level::Fatal);
   ::signal(SIGPIPE, SIG_IGN);
+  g_pki.build(std::string(argv[2]) + ".pki");
   std::ifstream in(argv[1]);
   std::ofstream out(argv[2]);
   std::string line;
